@@ -360,6 +360,9 @@ pub fn space(tier: Tier, id: &str) -> Option<Box<dyn Space>> {
     if let Some(r) = reversed_of(id, |base| space(tier, base)) {
         return r;
     }
+    if let Some(r) = concurrent_of(id, |base| space(tier, base)) {
+        return r;
+    }
     match id {
         "days" => Some(Box::new(Days)),
         "seconds" => Some(Box::new(Seconds)),
@@ -373,7 +376,7 @@ fn replay(tier: Tier, case: &Value) -> Vec<Violation> {
 }
 
 fn run(ctx: &Ctx) -> i32 {
-    let ids: Vec<&'static str> = if ctx.tier == Tier::Thorough { vec!["days", "seconds", "display", "days~rev", "seconds~rev", "display~rev"] } else { vec!["days", "seconds", "display", "seconds~rev", "display~rev"] };
+    let ids: Vec<&'static str> = if ctx.tier == Tier::Thorough { vec!["days", "seconds", "display", "days~rev", "seconds~rev", "display~rev", "display~par"] } else { vec!["days", "seconds", "display", "seconds~rev", "display~rev", "display~par"] };
     let spaces = ids.iter().map(|id| (*id, space(ctx.tier, id).unwrap())).collect();
     let thorough = ctx.tier == Tier::Thorough;
     let total_days = days_from_civil(9999, 12, 31) - days_from_civil(1900, 1, 1) + 1;
